@@ -64,10 +64,16 @@ Load(op, g, term) == /\ gens >= 1 /\ g \in 0..gens /\ UNCHANGED gens
 Apply(g) == Load("apply", g, C.a)
 Serve(g) == Load("serve", g, C.a)
 Perftrack(g) == Load("perftrack", g, PT.t)
+\* the latest generation is loaded while another trainer commits the next one between two state loads: the action must
+\* see ONE generation (the old or the new one), never a mixture
+Race(op, term) == /\ gens >= 1 /\ gens < MaxGen /\ gens' = gens + 1
+                  /\ hist' = Append(hist, Ev(op, 0, gens, <<Gen(term, gens), Gen(term, gens + 1)>>))
+ApplyRace == Race("apply-race", C.a)
+ServeRace == Race("serve-race", C.a)
 AnyApply == \E g \in 0..MaxGen : Apply(g)
 AnyServe == \E g \in 0..MaxGen : Serve(g)
 AnyPerftrack == \E g \in 0..MaxGen : Perftrack(g)
-Next == Train \/ AnyApply \/ AnyServe \/ AnyPerftrack
+Next == Train \/ AnyApply \/ AnyServe \/ AnyPerftrack \/ ApplyRace \/ ServeRace
 Spec == Init /\ [][Next]_vars
 Bound == Len(hist) <= Depth
 
